@@ -52,8 +52,11 @@ DKOf(x) == <<x \div 10000, (x \div 100) % 100, x % 100>>
 
 Model == [nw |-> nw, lat |-> LatOf(latid), D |-> DD, tau |-> TauOf(nw, tauid), hops |-> hops]
 
+RECURSIVE SubsetsUpToSize(_, _)
+SubsetsUpToSize(S, n) == IF n = 0 THEN {{}} ELSE LET P == SubsetsUpToSize(S, n - 1) IN P \cup {p \cup {x} : p \in P, x \in S}
+SubsetsOfSize(S, n) == {T \in SubsetsUpToSize(S, n) : Cardinality(T) = n}
 Init == /\ nw \in NWS /\ latid \in LATIDS /\ tauid \in TAUIDS
-        /\ \E k \in 1..MAXHOPS : \E hh \in kSubset(k, IndependentHops(nw)) :
+        /\ \E k \in 1..MAXHOPS : \E hh \in SubsetsOfSize(IndependentHops(nw), k) :    \* (kSubset fails for base sets with more than 62 elements)
               hops = IF Symmetrise THEN HermitianClosure(hh) ELSE hh
         /\ fft \in {FFTOf(x) : x \in FFTS} /\ dk \in {DKOf(x) : x \in DKS}
         /\ phase = "new" /\ direct = <<>>
